@@ -1,4 +1,4 @@
-import Amgcl.Proofs.KrylovLGMRESSim
+import Amgcl.Proofs.KrylovLGMRES
 import Amgcl.Proofs.KrylovGMRESRestart
 import Amgcl.Proofs.KrylovGMRESExample
 import Mathlib.Algebra.Order.Field.Rat
@@ -29,16 +29,13 @@ Krylov vectors come FIRST, the augmentation vectors LAST (the comment in the sou
 * `lgmres_first_cycle_monotone_model`: the cycle of the model with an empty buffer, whatever its pass count, breakdown in its
   last pass or not, does not increase `‖Rf x‖²`.
 -/
+set_option linter.unusedSectionVars false
+set_option linter.unusedVariables false
 namespace Amgcl.C05f
 open Amgcl Amgcl.Solver Amgcl.Krylov Amgcl.Energy.Bridge Matrix
 
 section refine
 variable {K : Type} [Field K] [LinearOrder K] [IsStrictOrderedRing K]
-
-/-- the `x` that `LGMRES.update` returns when the inner loop of the cycle started in `st` has made `j` passes -/
-def lCycleIterate (prm : LGMRES.Params K) (sqrt : K → K) (A : CRS K) (P : Vec K → Vec K) (st : LGMRES.St K) (j : ℕ) :
-    Vec K :=
-  (LGMRES.update prm stdIp sqrt P st (lInnerPass prm.pside prm.MM prm.K' sqrt A P st j)).x
 
 /-- the cycle of the model returns `lCycleIterate … j` for the pass count `j ≥ 1` of its own inner loop -/
 theorem lgmres_cycle_returns_iterate (prm : LGMRES.Params K) (sqrt : K → K) (A : CRS K) (P : Vec K → Vec K) (epsT : K)
@@ -52,7 +49,7 @@ theorem lgmres_cycle_returns_iterate (prm : LGMRES.Params K) (sqrt : K → K) (A
   obtain ⟨h1, h2⟩ := linner_eq prm sqrt A P epsT st
   refine ⟨h1, h2, fun hM => linner_j_le prm hM sqrt A P epsT st, ?_⟩
   unfold LGMRES.cycle lCycleIterate
-  rw [← h1]
+  exact congrArg (fun t => (LGMRES.update prm stdIp sqrt P st t).x) h1
 
 /-- on Krylov passes the iterate is the GMRES iterate -/
 theorem lCycleIterate_eq (prm : LGMRES.Params K) (sqrt : K → K) (A : CRS K) (P : Vec K → Vec K) (st : LGMRES.St K)
